@@ -667,6 +667,13 @@ class Explorer(object):
             try:
                 try:
                     res, exc = body(), None
+                except Concretization as ce:
+                    # a symbolic value formatted with %d / {:d} inside a `raise SomeError(...)` statement of the code under
+                    # test: the outcome of the path is that exception (its message is never inspected)
+                    conv = _raise_in_progress(ce)
+                    if conv is None:
+                        raise
+                    res, exc = None, conv
                 except HarnessError:
                     raise
                 except Exception as e:  # outcome of the code under test
@@ -676,6 +683,37 @@ class Explorer(object):
             paths.append(Path(list(self.pc), res, exc, list(self.decisions)))
             STATS['paths'] += 1
         return paths
+
+
+def _raise_in_progress(ce):
+    """if the Concretization happened while evaluating the argument of a `raise X(...)` statement in PyRTL code,
+    return an instance of X (message: symbolic), else None"""
+    import linecache
+    import re
+    tb = ce.__traceback__
+    frames = []
+    while tb is not None:
+        frames.append((tb.tb_frame, tb.tb_lineno))
+        tb = tb.tb_next
+    for frame, lineno in reversed(frames):
+        fn = frame.f_code.co_filename
+        if '/pyrtl/' not in fn:
+            continue
+        for back in range(0, 6):
+            line = linecache.getline(fn, lineno - back).strip()
+            m = re.match(r'raise\s+([\w\.]+)\s*\(', line)
+            if m:
+                name = m.group(1).split('.')[-1]
+                cls = frame.f_globals.get(name) or frame.f_globals.get(m.group(1).split('.')[0])
+                if cls is not None and not isinstance(cls, type):
+                    cls = getattr(cls, name, None)
+                if isinstance(cls, type) and issubclass(cls, Exception):
+                    return cls('<message formatted from a symbolic value>')
+                return None
+            if line.endswith(':') or line.startswith(('return ', 'if ', 'for ', 'while ')):
+                break
+        return None
+    return None
 
 
 def fork(cond):
